@@ -1,46 +1,251 @@
 import Cppcms.C01.HttpProofs3
+set_option linter.unusedSimpArgs false
 /-! HTTP: the generated `parser::step()` hands every plain header line, unchanged and one by one, to
 the per-header code of `some_headers_data_read`, then reports the end of the headers. -/
 namespace Cppcms.C01
 open Cppcms
 
-/-- a header line without CR, quotes or comments, not starting with a blank (no folding) -/
+/-! ## what may stand inside a header line
+
+The generated parser knows quoted strings (`"…"`, `\c` inside) and comments (`(…)`, `\c` inside; not nested) and
+passes their bytes through to `header_` like any other byte.  `LMode` is the peer's view of where it is in a
+line; `lmStep` says which bytes it may write there (`none`: a CR outside quotes/comments — the line ends there —,
+or a backslash followed by a byte ≥ 127, which the parser rejects). -/
+
+inductive LMode
+  | plain | quote | quoteEsc | comment | commentEsc
+deriving Repr, DecidableEq
+
+def lmStep : LMode → UInt8 → Option LMode
+  | .plain, c => if c == 13 then none else if c == 34 then some .quote else if c == 40 then some .comment else some .plain
+  | .quote, c => if c == 34 then some .plain else if c == 92 then some .quoteEsc else some .quote
+  | .quoteEsc, c => if c.toNat ≥ 127 then none else some .quote
+  | .comment, c => if c == 41 then some .plain else if c == 92 then some .commentEsc else some .comment
+  | .commentEsc, c => if c.toNat ≥ 127 then none else some .comment
+
+def lmRun : LMode → Bytes → Option LMode
+  | m, [] => some m
+  | m, c :: t => match lmStep m c with
+    | none => none
+    | some m' => lmRun m' t
+
+/-- a stretch of a header line with balanced quoted strings and comments and no bare CR -/
+def Balanced (l : Bytes) : Prop := lmRun .plain l = some .plain
+
+instance (l : Bytes) : Decidable (Balanced l) := by unfold Balanced; infer_instance
+
+theorem balanced_of_chars (l : Bytes) (h : ∀ c ∈ l, c ≠ 13 ∧ c ≠ 34 ∧ c ≠ 40) : Balanced l := by
+  unfold Balanced
+  induction l with
+  | nil => rfl
+  | cons c t ih =>
+    have hc := h c (by simp)
+    simp only [lmRun, lmStep, beq_iff_eq, hc.1, hc.2.1, hc.2.2, if_false]
+    exact ih (fun x hx => h x (by simp [hx]))
+
+/-- a header line: balanced, not empty, not starting with a blank (that would be a continuation) -/
 structure PlainLine (l : Bytes) : Prop where
   ne : l ≠ []
-  chars : ∀ c ∈ l, c ≠ 13 ∧ c ≠ 34 ∧ c ≠ 40
+  body : Balanced l
   first : l.head? ≠ some 32 ∧ l.head? ≠ some 9
 
 def natsOf (l : Bytes) : List Nat := l.map UInt8.toNat
 
-theorem step_plain_observed (ps : Gen.PState) (c : UInt8) (hs : ps.state = Gen.ps_input_observed)
-    (hc : c ≠ 13 ∧ c ≠ 34 ∧ c ≠ 40) : Gen.stepSwitch ps c.toNat = .cont { ps with state := Gen.ps_input_observed } := by
-  have h1 : c.toNat ≠ 13 := fun h => hc.1 (UInt8.toNat_inj.mp (by simpa using h))
-  have h2 : c.toNat ≠ 34 := fun h => hc.2.1 (UInt8.toNat_inj.mp (by simpa using h))
-  have h3 : c.toNat ≠ 40 := fun h => hc.2.2 (UInt8.toNat_inj.mp (by simpa using h))
-  unfold Gen.stepSwitch
-  simp [hs, Gen.ps_idle, Gen.ps_input_observed, Gen.stepArm_input_observed, h1, h2, h3]
+def stateOf : LMode → Nat
+  | .plain => Gen.ps_input_observed
+  | .quote => Gen.ps_quote_expected
+  | .quoteEsc => Gen.ps_pass_quote_exptected
+  | .comment => Gen.ps_closing_bracket_expected
+  | .commentEsc => Gen.ps_pass_closing_bracket_expected
 
-theorem step_plain_idle (ps : Gen.PState) (c : UInt8) (hs : ps.state = Gen.ps_idle)
-    (hc : c ≠ 13 ∧ c ≠ 34 ∧ c ≠ 40) : Gen.stepSwitch ps c.toNat = .cont { ps with state := Gen.ps_input_observed, rhdr := [] } := by
-  have h1 : c.toNat ≠ 13 := fun h => hc.1 (UInt8.toNat_inj.mp (by simpa using h))
-  have h2 : c.toNat ≠ 34 := fun h => hc.2.1 (UInt8.toNat_inj.mp (by simpa using h))
-  have h3 : c.toNat ≠ 40 := fun h => hc.2.2 (UInt8.toNat_inj.mp (by simpa using h))
-  unfold Gen.stepSwitch
-  simp [hs, Gen.ps_idle, Gen.stepArm_idle, h1, h2, h3, Gen.ps_input_observed]
+/-- `bracket_counter_` -/
+def bcOf : LMode → Nat
+  | .comment => 1
+  | .commentEsc => 1
+  | _ => 0
 
-/-- the parser in state `input_observed` runs through plain bytes, appending them -/
-theorem parserRun_plain (l : Bytes) (hl : ∀ c ∈ l, c ≠ 13 ∧ c ≠ 34 ∧ c ≠ 40) :
-    ∀ (ps : Gen.PState) (rest : Bytes), ps.state = Gen.ps_input_observed →
-      parserRun ps (l ++ rest) = parserRun { ps with rhdr := (natsOf l).reverse ++ ps.rhdr } rest := by
+theorem toNat_ne {c : UInt8} {n : Nat} (hn : n < 256) (h : c ≠ UInt8.ofNat n) : c.toNat ≠ n := by
+  intro e
+  apply h
+  apply UInt8.toNat_inj.mp
+  rw [e]
+  simp [Nat.mod_eq_of_lt hn]
+
+/-- the generated transition follows the peer's modes: byte by byte, inside a line -/
+theorem step_sim (m m' : LMode) (ps : Gen.PState) (c : UInt8) (hs : ps.state = stateOf m) (hb : ps.bc = bcOf m)
+    (hu : ps.under = false) (h : lmStep m c = some m') :
+    Gen.stepSwitch ps c.toNat = .cont { ps with state := stateOf m', bc := bcOf m' } := by
+  cases m with
+  | plain =>
+    simp only [lmStep] at h
+    by_cases h13 : c = 13
+    · simp [h13] at h
+    by_cases h34 : c = 34
+    · subst h34
+      simp only [beq_iff_eq, h13, if_false] at h
+      have : m' = .quote := by simpa using h.symm
+      subst this
+      unfold Gen.stepSwitch
+      simp [hs, stateOf, bcOf, Gen.ps_idle, Gen.ps_input_observed, Gen.stepArm_input_observed, Gen.ps_quote_expected] at hb ⊢
+      first | done | (cases ps; simp_all [stateOf, bcOf, Gen.ps_idle, Gen.ps_input_observed, Gen.ps_quote_expected, Gen.ps_pass_quote_exptected, Gen.ps_closing_bracket_expected, Gen.ps_pass_closing_bracket_expected])
+    by_cases h40 : c = 40
+    · subst h40
+      have : m' = .comment := by simpa using h.symm
+      subst this
+      unfold Gen.stepSwitch
+      simp [hs, stateOf, bcOf, Gen.ps_idle, Gen.ps_input_observed, Gen.stepArm_input_observed,
+        Gen.ps_closing_bracket_expected] at hb ⊢
+      first | done | (cases ps; simp_all [stateOf, bcOf, Gen.ps_idle, Gen.ps_input_observed, Gen.ps_quote_expected, Gen.ps_pass_quote_exptected, Gen.ps_closing_bracket_expected, Gen.ps_pass_closing_bracket_expected])
+    · have : m' = .plain := by simpa [h13, h34, h40] using h.symm
+      subst this
+      have n13 := toNat_ne (n := 13) (by decide) h13
+      have n34 := toNat_ne (n := 34) (by decide) h34
+      have n40 := toNat_ne (n := 40) (by decide) h40
+      unfold Gen.stepSwitch
+      simp [hs, stateOf, bcOf, Gen.ps_idle, Gen.ps_input_observed, Gen.stepArm_input_observed, n13, n34, n40] at hb ⊢
+      first | done | (cases ps; simp_all [stateOf, bcOf, Gen.ps_idle, Gen.ps_input_observed, Gen.ps_quote_expected, Gen.ps_pass_quote_exptected, Gen.ps_closing_bracket_expected, Gen.ps_pass_closing_bracket_expected])
+  | quote =>
+    simp only [lmStep] at h
+    by_cases h34 : c = 34
+    · subst h34
+      have : m' = .plain := by simpa using h.symm
+      subst this
+      unfold Gen.stepSwitch
+      simp [hs, stateOf, bcOf, Gen.ps_idle, Gen.ps_input_observed, Gen.ps_last_lf_exptected, Gen.ps_lf_exptected,
+        Gen.ps_space_or_other_exptected, Gen.ps_quote_expected, Gen.stepArm_quote_expected] at hb ⊢
+      first | done | (cases ps; simp_all [stateOf, bcOf, Gen.ps_idle, Gen.ps_input_observed, Gen.ps_quote_expected, Gen.ps_pass_quote_exptected, Gen.ps_closing_bracket_expected, Gen.ps_pass_closing_bracket_expected])
+    by_cases h92 : c = 92
+    · subst h92
+      have : m' = .quoteEsc := by simpa using h.symm
+      subst this
+      unfold Gen.stepSwitch
+      simp [hs, stateOf, bcOf, Gen.ps_idle, Gen.ps_input_observed, Gen.ps_last_lf_exptected, Gen.ps_lf_exptected,
+        Gen.ps_space_or_other_exptected, Gen.ps_quote_expected, Gen.stepArm_quote_expected, Gen.ps_pass_quote_exptected] at hb ⊢
+      first | done | (cases ps; simp_all [stateOf, bcOf, Gen.ps_idle, Gen.ps_input_observed, Gen.ps_quote_expected, Gen.ps_pass_quote_exptected, Gen.ps_closing_bracket_expected, Gen.ps_pass_closing_bracket_expected])
+    · have : m' = .quote := by simpa [h34, h92] using h.symm
+      subst this
+      have n34 := toNat_ne (n := 34) (by decide) h34
+      have n92 := toNat_ne (n := 92) (by decide) h92
+      unfold Gen.stepSwitch
+      simp [hs, stateOf, bcOf, Gen.ps_idle, Gen.ps_input_observed, Gen.ps_last_lf_exptected, Gen.ps_lf_exptected,
+        Gen.ps_space_or_other_exptected, Gen.ps_quote_expected, Gen.stepArm_quote_expected, n34, n92] at hb ⊢
+      first | done | (cases ps; simp_all [stateOf, bcOf, Gen.ps_idle, Gen.ps_input_observed, Gen.ps_quote_expected, Gen.ps_pass_quote_exptected, Gen.ps_closing_bracket_expected, Gen.ps_pass_closing_bracket_expected])
+  | quoteEsc =>
+    simp only [lmStep] at h
+    by_cases hge : c.toNat ≥ 127
+    · simp [hge] at h
+    · have : m' = .quote := by simpa [hge] using h.symm
+      subst this
+      unfold Gen.stepSwitch
+      simp [hs, stateOf, bcOf, Gen.ps_idle, Gen.ps_input_observed, Gen.ps_last_lf_exptected, Gen.ps_lf_exptected,
+        Gen.ps_space_or_other_exptected, Gen.ps_quote_expected, Gen.ps_pass_quote_exptected,
+        Gen.stepArm_pass_quote_exptected, hge] at hb ⊢
+      first | done | (cases ps; simp_all [stateOf, bcOf, Gen.ps_idle, Gen.ps_input_observed, Gen.ps_quote_expected, Gen.ps_pass_quote_exptected, Gen.ps_closing_bracket_expected, Gen.ps_pass_closing_bracket_expected])
+  | comment =>
+    simp only [lmStep] at h
+    by_cases h41 : c = 41
+    · subst h41
+      have : m' = .plain := by simpa using h.symm
+      subst this
+      unfold Gen.stepSwitch
+      simp [hs, stateOf, bcOf, Gen.ps_idle, Gen.ps_input_observed, Gen.ps_last_lf_exptected, Gen.ps_lf_exptected,
+        Gen.ps_space_or_other_exptected, Gen.ps_quote_expected, Gen.ps_pass_quote_exptected,
+        Gen.ps_closing_bracket_expected, Gen.stepArm_closing_bracket_expected, hb, hu] at hb ⊢
+      first | done | (cases ps; simp_all [stateOf, bcOf, Gen.ps_idle, Gen.ps_input_observed, Gen.ps_quote_expected, Gen.ps_pass_quote_exptected, Gen.ps_closing_bracket_expected, Gen.ps_pass_closing_bracket_expected])
+    by_cases h92 : c = 92
+    · subst h92
+      have : m' = .commentEsc := by simpa using h.symm
+      subst this
+      unfold Gen.stepSwitch
+      simp [hs, stateOf, bcOf, Gen.ps_idle, Gen.ps_input_observed, Gen.ps_last_lf_exptected, Gen.ps_lf_exptected,
+        Gen.ps_space_or_other_exptected, Gen.ps_quote_expected, Gen.ps_pass_quote_exptected,
+        Gen.ps_closing_bracket_expected, Gen.stepArm_closing_bracket_expected, Gen.ps_pass_closing_bracket_expected] at hb ⊢
+      first | done | (cases ps; simp_all [stateOf, bcOf, Gen.ps_idle, Gen.ps_input_observed, Gen.ps_quote_expected, Gen.ps_pass_quote_exptected, Gen.ps_closing_bracket_expected, Gen.ps_pass_closing_bracket_expected])
+    · have : m' = .comment := by simpa [h41, h92] using h.symm
+      subst this
+      have n41 := toNat_ne (n := 41) (by decide) h41
+      have n92 := toNat_ne (n := 92) (by decide) h92
+      unfold Gen.stepSwitch
+      simp [hs, stateOf, bcOf, Gen.ps_idle, Gen.ps_input_observed, Gen.ps_last_lf_exptected, Gen.ps_lf_exptected,
+        Gen.ps_space_or_other_exptected, Gen.ps_quote_expected, Gen.ps_pass_quote_exptected,
+        Gen.ps_closing_bracket_expected, Gen.stepArm_closing_bracket_expected, n41, n92] at hb ⊢
+      first | done | (cases ps; simp_all [stateOf, bcOf, Gen.ps_idle, Gen.ps_input_observed, Gen.ps_quote_expected, Gen.ps_pass_quote_exptected, Gen.ps_closing_bracket_expected, Gen.ps_pass_closing_bracket_expected])
+  | commentEsc =>
+    simp only [lmStep] at h
+    by_cases hge : c.toNat ≥ 127
+    · simp [hge] at h
+    · have : m' = .comment := by simpa [hge] using h.symm
+      subst this
+      unfold Gen.stepSwitch
+      simp [hs, stateOf, bcOf, Gen.ps_idle, Gen.ps_input_observed, Gen.ps_last_lf_exptected, Gen.ps_lf_exptected,
+        Gen.ps_space_or_other_exptected, Gen.ps_quote_expected, Gen.ps_pass_quote_exptected,
+        Gen.ps_closing_bracket_expected, Gen.ps_pass_closing_bracket_expected,
+        Gen.stepArm_pass_closing_bracket_expected, hge] at hb ⊢
+      first | done | (cases ps; simp_all [stateOf, bcOf, Gen.ps_idle, Gen.ps_input_observed, Gen.ps_quote_expected, Gen.ps_pass_quote_exptected, Gen.ps_closing_bracket_expected, Gen.ps_pass_closing_bracket_expected])
+
+/-- the first byte of a line, seen from the idle state: `header_` is cleared, then as inside a line -/
+theorem step_first (m' : LMode) (ps : Gen.PState) (c : UInt8) (hs : ps.state = Gen.ps_idle) (hb : ps.bc = 0)
+    (h : lmStep .plain c = some m') :
+    Gen.stepSwitch ps c.toNat = .cont { ps with state := stateOf m', bc := bcOf m', rhdr := [] } := by
+  simp only [lmStep] at h
+  by_cases h13 : c = 13
+  · simp [h13] at h
+  by_cases h34 : c = 34
+  · subst h34
+    have : m' = .quote := by simpa using h.symm
+    subst this
+    unfold Gen.stepSwitch
+    simp [hs, stateOf, bcOf, Gen.ps_idle, Gen.stepArm_idle, Gen.ps_quote_expected] at hb ⊢
+    first | done | (cases ps; simp_all [stateOf, bcOf, Gen.ps_idle, Gen.ps_input_observed, Gen.ps_quote_expected, Gen.ps_pass_quote_exptected, Gen.ps_closing_bracket_expected, Gen.ps_pass_closing_bracket_expected])
+  by_cases h40 : c = 40
+  · subst h40
+    have : m' = .comment := by simpa using h.symm
+    subst this
+    unfold Gen.stepSwitch
+    simp [hs, stateOf, bcOf, Gen.ps_idle, Gen.stepArm_idle, Gen.ps_closing_bracket_expected] at hb ⊢
+    first | done | (cases ps; simp_all [stateOf, bcOf, Gen.ps_idle, Gen.ps_input_observed, Gen.ps_quote_expected, Gen.ps_pass_quote_exptected, Gen.ps_closing_bracket_expected, Gen.ps_pass_closing_bracket_expected])
+  · have : m' = .plain := by simpa [h13, h34, h40] using h.symm
+    subst this
+    have n13 := toNat_ne (n := 13) (by decide) h13
+    have n34 := toNat_ne (n := 34) (by decide) h34
+    have n40 := toNat_ne (n := 40) (by decide) h40
+    unfold Gen.stepSwitch
+    simp [hs, stateOf, bcOf, Gen.ps_idle, Gen.stepArm_idle, Gen.ps_input_observed, n13, n34, n40] at hb ⊢
+    first | done | (cases ps; simp_all [stateOf, bcOf, Gen.ps_idle, Gen.ps_input_observed, Gen.ps_quote_expected, Gen.ps_pass_quote_exptected, Gen.ps_closing_bracket_expected, Gen.ps_pass_closing_bracket_expected])
+
+/-- the parser runs through a stretch of a line, appending its bytes -/
+theorem parserRun_body (l : Bytes) : ∀ (m m' : LMode) (ps : Gen.PState) (rest : Bytes), lmRun m l = some m' →
+    ps.state = stateOf m → ps.bc = bcOf m → ps.under = false →
+    parserRun ps (l ++ rest) =
+      parserRun { ps with state := stateOf m', bc := bcOf m', rhdr := (natsOf l).reverse ++ ps.rhdr } rest := by
   induction l with
-  | nil => intro ps rest _; simp [natsOf]
+  | nil =>
+    intro m m' ps rest h hs hb _
+    simp only [lmRun, Option.some.injEq] at h
+    subst h
+    simp only [List.nil_append, natsOf, List.map_nil, List.reverse_nil]
+    congr 1
+    cases ps; simp_all
   | cons c t ih =>
-    intro ps rest hs
-    have hc := hl c (by simp)
-    simp only [List.cons_append]
-    rw [parserRun_cons_cont _ (step_plain_observed ps c hs hc)]
-    rw [ih (fun x hx => hl x (by simp [hx])) _ rest (by simp [Gen.ps_input_observed])]
-    simp [natsOf, hs]
+    intro m m' ps rest h hs hb hu
+    simp only [lmRun] at h
+    cases hstep : lmStep m c with
+    | none => rw [hstep] at h; cases h
+    | some m1 =>
+      rw [hstep] at h
+      simp only at h
+      simp only [List.cons_append]
+      rw [parserRun_cons_cont _ (step_sim m m1 ps c hs hb hu hstep)]
+      rw [ih m1 m' _ rest h rfl rfl (by simpa using hu)]
+      simp [natsOf]
+
+/-- the parser in state `input_observed` runs through a balanced stretch, appending it -/
+theorem parserRun_plain (l : Bytes) (hl : Balanced l) (ps : Gen.PState) (rest : Bytes)
+    (hs : ps.state = Gen.ps_input_observed) (hb : ps.bc = 0) (hu : ps.under = false) :
+    parserRun ps (l ++ rest) = parserRun { ps with rhdr := (natsOf l).reverse ++ ps.rhdr } rest := by
+  rw [parserRun_body l .plain .plain ps rest hl hs hb hu]
+  congr 1
+  cases ps; simp_all [stateOf, bcOf]
 
 theorem step_cr_observed (ps : Gen.PState) (hs : ps.state = Gen.ps_input_observed) :
     Gen.stepSwitch ps 13 = .cont { ps with state := Gen.ps_lf_exptected } := by
@@ -74,10 +279,11 @@ theorem step_fold (ps : Gen.PState) (c : UInt8) (hs : ps.state = Gen.ps_space_or
   simp [hs, Gen.ps_idle, Gen.ps_input_observed, Gen.ps_last_lf_exptected, Gen.ps_lf_exptected, Gen.ps_space_or_other_exptected,
     Gen.stepArm_space_or_other_exptected, h3, hu]
 
-/-- a continuation piece of a folded header: starts with SP or HTAB, no CR, quote or comment character -/
+/-- a continuation piece of a folded header: starts with SP or HTAB, balanced (a fold inside a quoted string or a
+comment is not a fold: the CR is content there) -/
 structure ContPiece (p : Bytes) : Prop where
   first : p.head? = some 32 ∨ p.head? = some 9
-  chars : ∀ c ∈ p, c ≠ 13 ∧ c ≠ 34 ∧ c ≠ 40
+  body : Balanced p
 
 /-- wire form of the continuation lines: `CRLF piece` each -/
 def encCont (tail : List Bytes) : Bytes := tail.flatMap fun p => 13 :: 10 :: p
@@ -86,56 +292,65 @@ def encCont (tail : List Bytes) : Bytes := tail.flatMap fun p => 13 :: 10 :: p
 the line ends at a CRLF that is not followed by SP/HTAB -/
 theorem parserRun_cont (c : UInt8) (hc : c ≠ 32 ∧ c ≠ 9) (rest : Bytes) :
     ∀ (tail : List Bytes) (ps : Gen.PState), (∀ p ∈ tail, ContPiece p) → ps.state = Gen.ps_input_observed →
-      ps.under = false → ps.unget = false →
+      ps.bc = 0 → ps.under = false → ps.unget = false →
       parserRun ps (encCont tail ++ 13 :: 10 :: c :: rest) =
         (Gen.pr_got_header, { ps with state := Gen.ps_idle, rhdr := (natsOf tail.flatten).reverse ++ ps.rhdr }, c :: rest) := by
   intro tail
   induction tail with
   | nil =>
-    intro ps _ hs hu hg
+    intro ps _ hs hb0 hu hg
     simp only [encCont, List.flatMap_nil, List.nil_append]
     rw [parserRun_cons_cont (c := 13) _ (step_cr_observed ps hs)]
     rw [parserRun_cons_cont (c := 10) _ (step_lf _ (by simp [Gen.ps_lf_exptected]))]
     rw [parserRun_cons_ret _ (step_after_crlf _ c (by simp [Gen.ps_space_or_other_exptected]) hc (by simp) (by simpa using hu))]
     simp [natsOf, hg, hu]
   | cons p t ih =>
-    intro ps hw hs hu hg
+    intro ps hw hs hb0 hu hg
     obtain ⟨hf, hch⟩ := hw p (by simp)
     have hwt : ∀ q ∈ t, ContPiece q := fun q hq => hw q (by simp [hq])
     cases p with
     | nil => simp at hf
     | cons b p' =>
       have hb : b = 32 ∨ b = 9 := by simpa using hf
-      have hp' : ∀ x ∈ p', x ≠ 13 ∧ x ≠ 34 ∧ x ≠ 40 := fun x hx => hch x (by simp [hx])
+      have hp' : Balanced p' := by
+        unfold Balanced at hch ⊢
+        rcases hb with rfl | rfl <;> simpa [lmRun, lmStep] using hch
       have hshape : encCont ((b :: p') :: t) ++ 13 :: 10 :: c :: rest = 13 :: 10 :: b :: (p' ++ (encCont t ++ 13 :: 10 :: c :: rest)) := by
         simp [encCont, List.append_assoc]
       rw [hshape]
       rw [parserRun_cons_cont (c := 13) _ (step_cr_observed ps hs)]
       rw [parserRun_cons_cont (c := 10) _ (step_lf _ (by simp [Gen.ps_lf_exptected]))]
       rw [parserRun_cons_cont _ (step_fold _ b (by simp [Gen.ps_space_or_other_exptected]) hb (by simp) (by simpa using hu))]
-      rw [parserRun_plain p' hp' _ _ (by simp [Gen.ps_input_observed])]
-      rw [ih _ hwt (by simp [Gen.ps_input_observed]) (by simpa using hu) (by simpa using hg)]
+      rw [parserRun_plain p' hp' _ _ (by simp [Gen.ps_input_observed]) (by simpa using hb0) (by simpa using hu)]
+      rw [ih _ hwt (by simp [Gen.ps_input_observed]) (by simpa using hb0) (by simpa using hu) (by simpa using hg)]
       simp [natsOf, List.append_assoc]
 
-/-- one complete plain header line, seen from the idle state: `got_header` with exactly that line in
-`header_`, the look-ahead byte pushed back -/
+theorem balanced_cons {c0 : UInt8} {t : Bytes} (h : Balanced (c0 :: t)) :
+    ∃ m1, lmStep .plain c0 = some m1 ∧ lmRun m1 t = some .plain := by
+  unfold Balanced at h
+  simp only [lmRun] at h
+  cases hs : lmStep .plain c0 with
+  | none => rw [hs] at h; cases h
+  | some m1 => rw [hs] at h; exact ⟨m1, rfl, h⟩
+
+/-- one complete header line, seen from the idle state: `got_header` with exactly that line in `header_`, the
+look-ahead byte pushed back -/
 theorem parserRun_line (l : Bytes) (hl : PlainLine l) (c : UInt8) (hc : c ≠ 32 ∧ c ≠ 9) (rest : Bytes)
-    (ps : Gen.PState) (hs : ps.state = Gen.ps_idle) (hu : ps.under = false) (hg : ps.unget = false) :
+    (ps : Gen.PState) (hs : ps.state = Gen.ps_idle) (hb : ps.bc = 0) (hu : ps.under = false) (hg : ps.unget = false) :
     parserRun ps (l ++ 13 :: 10 :: c :: rest) =
       (Gen.pr_got_header, { ps with state := Gen.ps_idle, rhdr := (natsOf l).reverse }, c :: rest) := by
-  obtain ⟨hne, hch, _⟩ := hl
+  obtain ⟨hne, hbal, _⟩ := hl
   cases l with
   | nil => exact absurd rfl hne
   | cons c0 t =>
-    have hc0 := hch c0 (by simp)
-    have ht : ∀ x ∈ t, x ≠ 13 ∧ x ≠ 34 ∧ x ≠ 40 := fun x hx => hch x (by simp [hx])
+    obtain ⟨m1, h1, h2⟩ := balanced_cons hbal
     simp only [List.cons_append]
-    rw [parserRun_cons_cont _ (step_plain_idle ps c0 hs hc0)]
-    rw [parserRun_plain t ht _ _ (by simp [Gen.ps_input_observed])]
-    rw [parserRun_cons_cont (c := 13) _ (step_cr_observed _ (by simp [Gen.ps_input_observed]))]
+    rw [parserRun_cons_cont _ (step_first m1 ps c0 hs hb h1)]
+    rw [parserRun_body t m1 .plain _ _ h2 rfl rfl (by simpa using hu)]
+    rw [parserRun_cons_cont (c := 13) _ (step_cr_observed _ (by simp [stateOf]))]
     rw [parserRun_cons_cont (c := 10) _ (step_lf _ (by simp [Gen.ps_lf_exptected]))]
     rw [parserRun_cons_ret _ (step_after_crlf _ c (by simp [Gen.ps_space_or_other_exptected]) hc (by simp) (by simpa using hu))]
-    simp [natsOf, hg, hu]
+    simp [natsOf, hg, hu, bcOf, hb]
 
 theorem step_cr_idle (ps : Gen.PState) (hs : ps.state = Gen.ps_idle) :
     Gen.stepSwitch ps 13 = .cont { ps with state := Gen.ps_last_lf_exptected, rhdr := [] } := by
@@ -186,7 +401,7 @@ variable (cfg : HttpCfg)
 /-- **header lines round trip** (generated parser): plain header lines reach the per-header code unchanged,
 one by one and in order; after the empty line `process_request` runs and the body is left unread. -/
 theorem hdrLoopC_lines : ∀ (ls : List Bytes) (r r' : HttpReq) (body : Bytes), (∀ l ∈ ls, PlainLine l) →
-    r.ps.state = Gen.ps_idle → r.ps.under = false → r.ps.unget = false → feedLines r ls = some r' →
+    r.ps.state = Gen.ps_idle → r.ps.bc = 0 → r.ps.under = false → r.ps.unget = false → feedLines r ls = some r' →
     hdrLoopC cfg r (encLines ls ++ body) =
       (match httpProcess cfg { r' with ps := { r'.ps with state := Gen.ps_last_lf_exptected, rhdr := [] } } with
        | none => .fin (.done .raw400) body
@@ -194,7 +409,7 @@ theorem hdrLoopC_lines : ∀ (ls : List Bytes) (r r' : HttpReq) (body : Bytes), 
   intro ls
   induction ls with
   | nil =>
-    intro r r' body _ hs hu hg hfeed
+    intro r r' body _ hs hb hu hg hfeed
     simp only [feedLines, Option.some.injEq] at hfeed
     subst hfeed
     rw [hdrLoopC_unfold]
@@ -203,13 +418,13 @@ theorem hdrLoopC_lines : ∀ (ls : List Bytes) (r r' : HttpReq) (body : Bytes), 
     simp [hu, Gen.pr_end_of_headers, Gen.pr_more_data, Gen.pr_got_header]
     rfl
   | cons l t ih =>
-    intro r r' body hw hs hu hg hfeed
+    intro r r' body hw hs hb hu hg hfeed
     have hwl := hw l (by simp)
     have hwt : ∀ x ∈ t, PlainLine x := fun x hx => hw x (by simp [hx])
     obtain ⟨c, rest, hcr, hc1, hc2⟩ := encLines_head t body hwt
     have hshape : encLines (l :: t) ++ body = l ++ 13 :: 10 :: c :: rest := by
       rw [← hcr]; simp [encLines, List.append_assoc]
-    rw [hdrLoopC_unfold, hshape, parserRun_line l hwl c ⟨hc1, hc2⟩ rest r.ps hs hu hg]
+    rw [hdrLoopC_unfold, hshape, parserRun_line l hwl c ⟨hc1, hc2⟩ rest r.ps hs hb hu hg]
     simp only [hu, Bool.false_eq_true, if_false]
     have h1 : (Gen.pr_got_header == Gen.pr_more_data) = false := by decide
     have h2 : (Gen.pr_got_header == Gen.pr_got_header) = true := by decide
@@ -232,7 +447,7 @@ theorem hdrLoopC_lines : ∀ (ls : List Bytes) (r r' : HttpReq) (body : Bytes), 
       simp only at hfeed ⊢
       have hps := httpGotHeader_ps hh
       simp only at hps
-      have := ih r2 r' body hwt (by rw [hps]) (by rw [hps]) (by rw [hps]; exact hg) hfeed
+      have := ih r2 r' body hwt (by rw [hps]) (by rw [hps]; exact hb) (by rw [hps]) (by rw [hps]; exact hg) hfeed
       rw [hcr] at this
       exact this
 
@@ -256,22 +471,21 @@ structure WFLine (l : FLine) : Prop where
 /-- **folded header round trip** at the parser: a header folded with SP or HTAB continuation lines is
 reported (`got_header`) with the unfolded value in `header_`, the look-ahead byte pushed back -/
 theorem parserRun_fline (l : FLine) (hl : WFLine l) (c : UInt8) (hc : c ≠ 32 ∧ c ≠ 9) (rest : Bytes)
-    (ps : Gen.PState) (hs : ps.state = Gen.ps_idle) (hu : ps.under = false) (hg : ps.unget = false) :
+    (ps : Gen.PState) (hs : ps.state = Gen.ps_idle) (hb : ps.bc = 0) (hu : ps.under = false) (hg : ps.unget = false) :
     parserRun ps (l.wire ++ 13 :: 10 :: c :: rest) =
       (Gen.pr_got_header, { ps with state := Gen.ps_idle, rhdr := (natsOf l.value).reverse }, c :: rest) := by
-  obtain ⟨⟨hne, hch, _⟩, htl⟩ := hl
+  obtain ⟨⟨hne, hbal, _⟩, htl⟩ := hl
   unfold FLine.wire FLine.value
   cases hh : l.head with
   | nil => exact absurd hh hne
   | cons c0 t =>
-    rw [hh] at hch
-    have hc0 := hch c0 (by simp)
-    have ht : ∀ x ∈ t, x ≠ 13 ∧ x ≠ 34 ∧ x ≠ 40 := fun x hx => hch x (by simp [hx])
+    rw [hh] at hbal
+    obtain ⟨m1, h1, h2⟩ := balanced_cons hbal
     simp only [List.cons_append, List.append_assoc]
-    rw [parserRun_cons_cont _ (step_plain_idle ps c0 hs hc0)]
-    rw [parserRun_plain t ht _ _ (by simp [Gen.ps_input_observed])]
-    rw [parserRun_cont c hc rest l.tail _ htl (by simp [Gen.ps_input_observed]) (by simpa using hu) (by simpa using hg)]
-    simp [natsOf, List.append_assoc]
+    rw [parserRun_cons_cont _ (step_first m1 ps c0 hs hb h1)]
+    rw [parserRun_body t m1 .plain _ _ h2 rfl rfl (by simpa using hu)]
+    rw [parserRun_cont c hc rest l.tail _ htl (by simp [stateOf]) (by simp [bcOf]) (by simpa using hu) (by simpa using hg)]
+    simp [natsOf, List.append_assoc, bcOf, hb]
 
 def encFLines (ls : List FLine) : Bytes := ls.flatMap (fun l => l.wire ++ [13, 10]) ++ [13, 10]
 
@@ -292,7 +506,7 @@ theorem encFLines_head (ls : List FLine) (body : Bytes) (hw : ∀ l ∈ ls, WFLi
 /-- header section with folded headers: every header reaches the per-header code with its unfolded value,
 one by one and in order; then `process_request`; the body is left unread -/
 theorem hdrLoopC_flines (cfg : HttpCfg) : ∀ (ls : List FLine) (r r' : HttpReq) (body : Bytes), (∀ l ∈ ls, WFLine l) →
-    r.ps.state = Gen.ps_idle → r.ps.under = false → r.ps.unget = false → feedLines r (ls.map FLine.value) = some r' →
+    r.ps.state = Gen.ps_idle → r.ps.bc = 0 → r.ps.under = false → r.ps.unget = false → feedLines r (ls.map FLine.value) = some r' →
     hdrLoopC cfg r (encFLines ls ++ body) =
       (match httpProcess cfg { r' with ps := { r'.ps with state := Gen.ps_last_lf_exptected, rhdr := [] } } with
        | none => .fin (.done .raw400) body
@@ -300,7 +514,7 @@ theorem hdrLoopC_flines (cfg : HttpCfg) : ∀ (ls : List FLine) (r r' : HttpReq)
   intro ls
   induction ls with
   | nil =>
-    intro r r' body _ hs hu hg hfeed
+    intro r r' body _ hs hb hu hg hfeed
     simp only [List.map_nil, feedLines, Option.some.injEq] at hfeed
     subst hfeed
     rw [hdrLoopC_unfold]
@@ -309,13 +523,13 @@ theorem hdrLoopC_flines (cfg : HttpCfg) : ∀ (ls : List FLine) (r r' : HttpReq)
     simp [hu, Gen.pr_end_of_headers, Gen.pr_more_data, Gen.pr_got_header]
     rfl
   | cons l t ih =>
-    intro r r' body hw hs hu hg hfeed
+    intro r r' body hw hs hb hu hg hfeed
     have hwl := hw l (by simp)
     have hwt : ∀ x ∈ t, WFLine x := fun x hx => hw x (by simp [hx])
     obtain ⟨c, rest, hcr, hc1, hc2⟩ := encFLines_head t body hwt
     have hshape : encFLines (l :: t) ++ body = l.wire ++ 13 :: 10 :: c :: rest := by
       rw [← hcr]; simp [encFLines, List.append_assoc]
-    rw [hdrLoopC_unfold, hshape, parserRun_fline l hwl c ⟨hc1, hc2⟩ rest r.ps hs hu hg]
+    rw [hdrLoopC_unfold, hshape, parserRun_fline l hwl c ⟨hc1, hc2⟩ rest r.ps hs hb hu hg]
     simp only [hu, Bool.false_eq_true, if_false]
     have h1 : (Gen.pr_got_header == Gen.pr_more_data) = false := by decide
     have h2 : (Gen.pr_got_header == Gen.pr_got_header) = true := by decide
@@ -339,7 +553,7 @@ theorem hdrLoopC_flines (cfg : HttpCfg) : ∀ (ls : List FLine) (r r' : HttpReq)
       simp only at hfeed ⊢
       have hps := httpGotHeader_ps hh
       simp only at hps
-      have := ih r2 r' body hwt (by rw [hps]) (by rw [hps]) (by rw [hps]; exact hg) hfeed
+      have := ih r2 r' body hwt (by rw [hps]) (by rw [hps]; exact hb) (by rw [hps]) (by rw [hps]; exact hg) hfeed
       rw [hcr] at this
       exact this
 
